@@ -24,6 +24,7 @@ from . import regk, t_standards
 from .common import coq_list, coq_str
 
 ULPS = 4
+ULPS_BASE = 4      # get_base_units / to_base_units of the float registry (root factor, then one more conversion)
 HEADER = ("From PintV Require Import Model.UC Model.Eval Model.Registry Model.RegistryRun Model.Standards "
           "Gen.DefaultDefs Gen.DefaultReg Gen.Standards.\nOpen Scope string_scope.\n")
 FRAC = "pint.UnitRegistry(non_int_type=Fraction, cache_folder=None)"
@@ -141,6 +142,10 @@ class RowCheck:
             except Exception as e:
                 fail("factor" if not isinstance(e, pint.errors.DimensionalityError) else "dims",
                      call, fr(row["factor"]), f"{type(e).__name__}: {e}")
+        # ---- every public route from the registry to "factor x SI units" must tell the standardised value:
+        #      get_root_units, get_base_units (default system, SI, cgs), Quantity.to_base_units, convert,
+        #      for the unit itself and (exact multiplicative rows) its inverse and its square
+        self.routes(row, name, fail, scale, v0, with_float)
         # ---- dimensionality
         dim = {k: F(v) for k, v in ureg.Quantity(F(1), name).dimensionality.items()}
         if dim != row["dims"]:
@@ -166,6 +171,127 @@ class RowCheck:
             except Exception as e:
                 fail("factor", f"Quantity(1.0, {name!r}).to_root_units()", fr(row["root"]), f"{type(e).__name__}: {e}", FLT)
         return out
+
+
+def _routes(self, row, name, fail, scale, v0, with_float):
+    import pint
+    ureg = self.ureg
+    M, L = row["dims"].get("[mass]", F(0)), row["dims"].get("[length]", F(0))
+    dimless = self.dimless
+
+    def expected(system, e):
+        """(value, tolerance, exact?) of 1 <unit>**e in the base units of `system`, from the table row"""
+        root, tol = row["root"], row["root_tol"]
+        if system == "cgs":                       # gram stays, meter -> centimeter
+            k = F(10) ** int(2 * L)
+        elif M.denominator == 1:                  # mks / SI: gram -> kilogram
+            k = F(1, 1000) ** int(M)
+        else:                                     # half-integer mass exponent: irrational in kg
+            v = (float(root) * 1000.0 ** (-float(M))) ** e
+            return v, abs(v) * 1e-12, False
+        v = (root * k) ** e
+        # first-order propagation of the stated half-digit through the power
+        t = abs(e) * (tol * k) * abs(root * k) ** (e - 1) * F(101, 100) if tol else F(0)
+        return v, t, True
+
+    def units_expected(system, e):
+        tbl = dict(t_standards.SI_UNIT)
+        if system == "cgs":
+            tbl.update(t_standards.CGS_UNIT)
+        return {tbl[d]: x * e for d, x in row["dims"].items()}
+
+    def close(x, v, t, exact_arith):
+        if exact_arith and row["kind"] in ("KExact", "KApprox") and not is_exact(x):
+            return False
+        try:
+            if isinstance(v, float) or not is_exact(x):
+                return abs(float(x) - float(v)) <= max(float(t), 1e-12 * abs(float(v)))
+            return abs(F(x) - v) <= t
+        except (TypeError, ValueError, OverflowError):
+            return False
+
+    exps = [1] if (row["offset"] is not None or row["kind"] != "KExact") else [1, -1, 2]
+    for e in exps:
+        u = ureg.Unit(name) ** e
+        utxt = repr(name) if e == 1 else f"ureg.Unit({name!r}) ** {e}"
+        # get_root_units
+        try:
+            f, un = ureg.get_root_units(u)
+            v = row["root"] ** e
+            t = abs(e) * row["root_tol"] * abs(row["root"]) ** (e - 1) * F(101, 100) if row["root_tol"] else F(0)
+            if not close(f, v, t, True):
+                fail("factor", f"get_root_units({utxt})[0]", fr(v), fr(f))
+        except Exception as ex:
+            fail("factor", f"get_root_units({utxt})", fr(row["root"] ** e), f"{type(ex).__name__}: {ex}")
+        for system in (None, "SI", "cgs"):
+            v, t, rational = expected(system, e)
+            call = f"get_base_units({utxt}" + ("" if system is None else f", system={system!r}") + ")"
+            shown = fr(v) if rational else repr(v)
+            try:
+                f, un = ureg.get_base_units(u, system=system)
+            except Exception as ex:
+                fail("base_units", call, shown, f"{type(ex).__name__}: {ex}")
+                continue
+            if not close(f, v, t, rational):
+                fail("base_units", call + "[0]", shown, fr(f))
+            got = {k: F(x) for k, x in un._units.items() if not dimless(k)}
+            if got != units_expected(system, e):
+                fail("base_units", call + "[1]", unit_text(units_expected(system, e)), unit_text(got))
+            if with_float and e == 1:
+                try:
+                    ff, _ = self.uf.get_base_units(self.uf.Unit(name), system=system)
+                    ev = float(v)
+                    if not (ulps(float(ff), ev) <= ULPS_BASE or abs(float(ff) - ev) <= float(t)):
+                        fail("base_units", call + "[0]", f"{ev!r} within {ULPS_BASE} ulp",
+                             f"{float(ff)!r} ({ulps(float(ff), ev):.1f} ulp)", FLT)
+                except Exception as ex:
+                    fail("base_units", call, shown, f"{type(ex).__name__}: {ex}", FLT)
+    # Quantity.to_base_units (default system): images of 0 and 1 (offset rows included), same units
+    v, t, rational = expected(None, 1)
+    exp_off = row["offset"] if row["offset"] is not None else F(0)
+    try:
+        b0 = ureg.Quantity(F(0), name).to_base_units()
+        b1 = ureg.Quantity(F(1), name).to_base_units()
+        if not close(b1.magnitude - b0.magnitude, v, t, rational):
+            fail("base_units", f"Quantity(1, {name!r}).to_base_units().magnitude - Quantity(0, {name!r}).to_base_units().magnitude",
+                 fr(v) if rational else repr(v), fr(b1.magnitude - b0.magnitude))
+        if not (is_exact(b0.magnitude) and F(b0.magnitude) == exp_off):
+            fail("offset", f"Quantity(0, {name!r}).to_base_units().magnitude", fr(exp_off), fr(b0.magnitude))
+        got = {k: F(x) for k, x in b1._units.items() if not dimless(k)}
+        if got != units_expected(None, 1):
+            fail("base_units", f"Quantity(1, {name!r}).to_base_units().units", unit_text(units_expected(None, 1)), unit_text(got))
+        if with_float:
+            fb = self.uf.Quantity(1.0, name).to_base_units().magnitude
+            ev = float(v + exp_off) if rational else v + float(exp_off)
+            if not (ulps(float(fb), ev) <= ULPS_BASE or abs(float(fb) - ev) <= float(t)):
+                fail("base_units", f"Quantity(1.0, {name!r}).to_base_units().magnitude", f"{ev!r} within {ULPS_BASE} ulp",
+                     f"{float(fb)!r} ({ulps(float(fb), ev):.1f} ulp)", FLT)
+    except Exception as ex:
+        fail("base_units", f"Quantity(1, {name!r}).to_base_units()", fr(v) if rational else repr(v), f"{type(ex).__name__}: {ex}")
+    # ureg.convert to the explicit coherent unit
+    if row["offset"] is None:
+        tgt = regk.mkuc(ureg, coherent(row))
+        call = f"convert(1, {name!r}, {unit_text(coherent(row))!r})"
+        try:
+            x = ureg.convert(F(1), ureg.Unit(name), ureg.Unit(tgt))
+            if not self.value_ok(row, x, row["factor"], row["tol"]):
+                fail("factor", call, fr(row["factor"]), fr(x))
+        except Exception as ex:
+            fail("factor", call, fr(row["factor"]), f"{type(ex).__name__}: {ex}")
+
+
+def _dimless(self, k):
+    if k not in self._dl:
+        try:
+            self._dl[k] = not self.ureg.get_dimensionality(self.ureg.UnitsContainer({k: 1}))
+        except Exception:
+            self._dl[k] = False
+    return self._dl[k]
+
+
+RowCheck.routes = _routes
+RowCheck.dimless = _dimless
+RowCheck._dl = {}
 
 
 def spellings_of(ureg, name):
